@@ -16,6 +16,10 @@ Round 4: index selections are filtered position by position (repair d3fb023: no
 all-or-nothing fancy assignment), bounded converts negative indices (repair
 4b664b8) and None bounds row by row; impose_variance / impose_spread return the
 samples unchanged only when statistic and target are both zero.
+Round 5 (hunt): no float value is stored into an array that inherits the
+caller's integer dtype (bounded, impose_at; repairs 37cdcb0, 94e41ab);
+synchronized tells tuple-valued entries by type, not by exception (repair
+48af035).
 NOT decided: landing in the target set on concrete vectors, idempotence, the
 numerics of impose_bounds / unique.
 """
@@ -26,6 +30,7 @@ from ..srcmodel import AnalysisError, walk_no_nested, unparse, norm_stmt, parent
 from .. import terms as T
 from .. import siblings as SB
 from .common import *
+from ..paths import enumerate_paths
 
 CN = 'mystic.constraints'
 TL = 'mystic.tools'
@@ -205,12 +210,13 @@ def input_rewriting(ctx):
 ''', 'partial', 'x[i] = value for every (i, value) of the mask')
     _ref(ctx, ctx.func(TL + ':synchronized.dec.func'), '''def func(x, *args, **kwds):
     for i,j in mask.items():
-        try: x[i] = x[j]
-        except TypeError:
+        if isinstance(j, tuple):
           j0,j1 = (j[:2] + (1,))[:2]
           try: x[i] = j1(x[j0]) if isinstance(j1, _Callable) else j1*x[j0]
           except IndexError: pass
-        except IndexError: pass
+        else:
+          try: x[i] = x[j]
+          except IndexError: pass
     return f(x, *args, **kwds)
 ''', 'synchronized', 'x[i] = x[j] (or scaled) for every (i, j) of the mask')
     _ref(ctx, ctx.func(TL + ':suppress'), '''def suppress(x, tol=1e-8, clip=True):
@@ -416,3 +422,66 @@ def connected_unites_groups(ctx):
 def tracked_chains_are_tied_as_a_whole(ctx):
     """impose_as ties x[k] to its tracked partner through tools.connected: chains of pairs given in any order form ONE group, so every partner in the chain ends up equal (+offset) whatever the order of the pairs"""
     connected_unites_groups(ctx)
+
+
+def _array_of_param(v, params):
+    """array(p) / asarray(p) / asarray(list(p)) of a parameter, without a dtype: keeps the (possibly integer) dtype of the input"""
+    if not (isinstance(v, ast.Call) and (v.func.id if isinstance(v.func, ast.Name) else getattr(v.func, 'attr', '')) in ('array', 'asarray') and v.args):
+        return None
+    a = v.args[0]
+    if isinstance(a, ast.Call) and isinstance(a.func, ast.Name) and a.func.id in ('list', 'tuple') and a.args:
+        a = a.args[0]
+    if not (isinstance(a, ast.Name) and a.id in params):
+        return None
+    dt = [k.value for k in v.keywords if k.arg == 'dtype'] + list(v.args[1:2])
+    return 'float' if dt and ('float' in unparse(dt[0])) else 'input'
+
+
+@rule('C16.k', min_instances=6)
+def float_values_are_not_stored_into_an_integer_array(ctx):
+    """bounded (behind impose_bounds) and impose_at write computed values - an interval end, a draw inside an interval, the pinned target - into an array made from the caller's vector; made with array(x) / asarray(list(x)) that array has the caller's dtype, and numpy silently truncates a float stored into an integer array (impose_bounds((0.5, 5.5)) on [0, 3, 10] gave [0, 3, 5]: outside the interval). On every path to such a store the array has been widened first: created with dtype=float, or re-bound through .astype(...) (possibly under a test of its dtype)"""
+    n = 0
+    for anchor in (CN + ':bounded', CN + ':impose_at.dec.func'):
+        f = ctx.func(anchor)
+        params = set(f.args())
+        made = {}
+        for st in stmts_of(f.node):
+            if isinstance(st, ast.Assign) and len(st.targets) == 1 and isinstance(st.targets[0], ast.Name):
+                k = _array_of_param(st.value, params)
+                if k:
+                    made[st.targets[0].id] = (st, k)
+        ctx.need(made, '%s: the working array made from the input is not found' % f.qualname)
+        for A, (s0, kind) in sorted(made.items()):
+            stores = [st for st in stmts_of(f.node) if isinstance(st, ast.Assign) and len(st.targets) == 1 and isinstance(st.targets[0], ast.Subscript)
+                      and isinstance(st.targets[0].value, ast.Name) and st.targets[0].value.id == A]
+
+            def widens(node):
+                return isinstance(node, ast.Assign) and len(node.targets) == 1 and isinstance(node.targets[0], ast.Name) and node.targets[0].id == A and \
+                    isinstance(node.value, ast.Call) and isinstance(node.value.func, ast.Attribute) and node.value.func.attr == 'astype' and unparse(node.value.func.value) == A
+
+            def rel(x):
+                return x in stores or widens(x) or x is s0
+            paths = [p for p in enumerate_paths(f.node, relevant=rel, unroll=(0, 1)) if p.exit != 'raise']
+            ctx.stats['paths_enumerated'] += len(paths)
+            for st in stores:
+                n += 1
+                bad = None
+                for p in paths:
+                    wide = kind == 'float'
+                    for e in p.events:
+                        if e[0] == 'cond' and (A + '.dtype') in unparse(e[1]):
+                            wide = True        # the widening is conditional on the dtype: the other branch is "already wide enough"
+                        if e[0] in ('stmt', 'partial'):
+                            if e[1] is s0:
+                                wide = kind == 'float'
+                            elif widens(e[1]):
+                                wide = True
+                            elif e[1] is st and not wide:
+                                bad = p
+                                break
+                    if bad:
+                        break
+                ctx.check(bad is None, '%s#%s' % (f.qualname, ' '.join(unparse(st.targets[0]).split())[:40]), 'stored into an array that was widened first',
+                          '%s stores computed values into %s, an array with the dtype of the caller\'s vector: for integer input a float bound / draw / target is truncated (impose_bounds((0.5, 5.5)) on [0, 3, 10] lands outside the interval)'
+                          % (f.qualname, A), f, st)
+    ctx.need(n >= 6, 'expected >= 6 stores into the working arrays of bounded / impose_at, found %d' % n)
